@@ -24,11 +24,12 @@ WORLD = {
 }
 UNKNOWN_UIDS = [0x99, 0x9A]
 _world_cache = {}
+WORLD_NAME = ["world.geoh5"]     # file name of the world the current case uses (C14 varies it: extra dots, blanks)
 
 
 def get_world(work):
-    """Create (once per process and work dir) the workspace; returns (ws, {uid int: live object})."""
-    key = str(work)
+    """Create (once per process, work dir and file name) the workspace; returns (ws, {uid int: live object}, path)."""
+    key = str(work) + "//" + WORLD_NAME[0]
     if key in _world_cache:
         w = _world_cache[key]
         if w[0]._geoh5 is None:      # pylint: disable=protected-access  (a file case closed it)
@@ -42,7 +43,7 @@ def get_world(work):
     from geoh5py.objects import Points
 
     os.makedirs(work, exist_ok=True)
-    path = os.path.join(str(work), "world.geoh5")
+    path = os.path.join(str(work), WORLD_NAME[0])
     if os.path.exists(path):
         os.remove(path)
     ws = Workspace.create(path)
